@@ -112,6 +112,14 @@ def gen_inputs(ctx, tier):
     nshaped = 8000 if tier == "quick" else 150000
     for _ in range(nshaped):
         inputs.append(("shaped", gen_text.shaped(rng)))
+    # every exported procedure called with 0..3 arguments of assorted types, directly and from tail positions
+    args_pool = ["1", "'a", "'(1 2)", "#(1 2)", "car", "\"s\"", "-1", "1/2", "1.5", "'()", "#t"]
+    for name in gen_text.stdlib_exports():
+        for k in range(4):
+            a = " ".join(rng.choice(args_pool) for _ in range(k))
+            call = "(%s %s)" % (name, a)
+            for w in ("%s", "((lambda () %s))", "(let ((x 1)) %s)", "(define (zf x) (if x %s 0)) (zf 1)", "(apply %s '())".replace("%s", name) if k == 0 else "(cond (#t %s))"):
+                inputs.append(("builtin_arity_type", gen_text.tame(w.replace("%s", call) if "%s" in w else w)))
     progs = gen_text.corpus_programs()
     forms = []
     for p in progs:
